@@ -3337,8 +3337,10 @@ class MainProvider(ResolverMixin, BaseProvider):
         else:
             QueryResultClass = None
 
+        # Enumeration sessions opened with OpenQueryInstances are continued
+        # with PullInstances (DSP0200).
         return self._openquery_response(
-            namespace, instances, 'PullInstancesWithPath', OperationTimeout,
+            namespace, instances, 'PullInstances', OperationTimeout,
             MaxObjectCount, ContinueOnError, QueryResultClass)
 
     def PullInstancesWithPath(self, EnumerationContext, MaxObjectCount):
